@@ -51,7 +51,7 @@ package store
 //@   ensures [nothing-new] {C04,C09} forall j int :: 0 <= j && j < len(idx.Entries) ==> exists i int :: 0 <= i && i < len(old(idx.Entries)) && old(idx.Entries)[i] == idx.Entries[j]
 
 //@ pred wfHeads(hs) :=
-//@      (forall i int :: 0 <= i && i < len(hs) ==> hs[i] != nil)
+//@      (forall i int :: 0 <= i && i < len(hs) ==> hs[i] != nil && len(hs[i].hash) == 20)
 //@   && (forall i, j int :: 0 <= i && i < j && j < len(hs) ==> hs[i].Name < hs[j].Name)
 //@ pred wfRefs(r) := wfHeads(r.Heads)
 
@@ -87,3 +87,67 @@ package store
 //@     invariant forall i int :: 0 <= i && i < left ==> string(idx.Entries[i].Path) <= dirName + "/"
 //@     invariant forall i int :: right <= i && i < len(idx.Entries) ==> dirName + "/" < string(idx.Entries[i].Path)
 //@     decreases right - left
+
+//@ func branch.write
+//@   returns err
+//@   pure
+
+//@ func Refs.IsBranchExist
+//@   returns ok
+//@   pure
+//@   requires wfRefs(r)
+//@   ensures [iff] {C10} ok <==> (exists i int :: 0 <= i && i < len(r.Heads) && r.Heads[i].Name == branchName)
+
+//@ func Refs.AddBranch
+//@   returns err
+//@   modifies Refs.Heads
+//@   requires wfRefs(r)
+//@   requires [hashlen] len(newBranchHash) == 20
+//@   ensures [dup-refused] {C10,C18} (exists i int :: 0 <= i && i < len(old(r.Heads)) && old(r.Heads)[i].Name == newBranchName) ==> err != nil && seqEq(r.Heads, old(r.Heads))
+//@   ensures [wf] {C10} err == nil ==> wfRefs(r)
+//@   ensures [added] {C10} err == nil ==> exists k int :: 0 <= k && k < len(r.Heads) && r.Heads[k].Name == newBranchName && string(r.Heads[k].hash) == string(newBranchHash) && fresh(r.Heads[k])
+//@   ensures [others-kept] {C10} forall i int :: 0 <= i && i < len(old(r.Heads)) ==> exists j int :: 0 <= j && j < len(r.Heads) && r.Heads[j] == old(r.Heads)[i]
+//@   ensures [nothing-new] {C10} err == nil ==> forall j int :: 0 <= j && j < len(r.Heads) ==> (r.Heads[j].Name == newBranchName && fresh(r.Heads[j])) || (exists i int :: 0 <= i && i < len(old(r.Heads)) && old(r.Heads)[i] == r.Heads[j])
+
+//@ func Refs.RenameBranch
+//@   returns err
+//@   modifies Refs.Heads, branch.Name
+//@   requires wfRefs(r)
+//@   ensures [taken-refused] {C10,C18} (exists i int :: 0 <= i && i < len(old(r.Heads)) && old(r.Heads[i].Name) == newBranchName) ==> err != nil && seqEq(r.Heads, old(r.Heads)) && (forall i int :: 0 <= i && i < len(r.Heads) ==> r.Heads[i].Name == old(r.Heads[i].Name))
+//@   ensures [unknown-refused] {C10,C18} (forall i int :: 0 <= i && i < len(old(r.Heads)) ==> old(r.Heads[i].Name) != curBranchName) ==> err != nil && seqEq(r.Heads, old(r.Heads)) && (forall i int :: 0 <= i && i < len(r.Heads) ==> r.Heads[i].Name == old(r.Heads[i].Name))
+//@   ensures [wf] {C10} err == nil ==> wfRefs(r)
+//@   ensures [renamed] {C10} err == nil ==> forall i int :: 0 <= i && i < len(old(r.Heads)) ==> exists j int :: 0 <= j && j < len(r.Heads) && r.Heads[j] == old(r.Heads)[i] && r.Heads[j].Name == ite(old(r.Heads[i].Name) == curBranchName, newBranchName, old(r.Heads[i].Name))
+//@   ensures [nothing-new] {C10} err == nil ==> len(r.Heads) == len(old(r.Heads))
+
+//@ func Refs.DeleteBranch
+//@   returns err
+//@   modifies Refs.Heads
+//@   requires wfRefs(r)
+//@   ensures [current-refused] {C10,C18} deleteBranchName == headBranchName ==> err != nil && seqEq(r.Heads, old(r.Heads))
+//@   ensures [unknown-refused] {C10,C18} (forall i int :: 0 <= i && i < len(old(r.Heads)) ==> old(r.Heads)[i].Name != deleteBranchName) ==> err != nil && seqEq(r.Heads, old(r.Heads))
+//@   ensures [wf] {C10} wfRefs(r)
+//@   ensures [gone] {C10} err == nil ==> forall j int :: 0 <= j && j < len(r.Heads) ==> r.Heads[j].Name != deleteBranchName
+//@   ensures [others-kept] {C10} forall i int :: 0 <= i && i < len(old(r.Heads)) && old(r.Heads)[i].Name != deleteBranchName ==> exists j int :: 0 <= j && j < len(r.Heads) && r.Heads[j] == old(r.Heads)[i]
+//@   ensures [nothing-new] {C10} forall j int :: 0 <= j && j < len(r.Heads) ==> exists i int :: 0 <= i && i < len(old(r.Heads)) && old(r.Heads)[i] == r.Heads[j]
+
+//@ func Refs.UpdateBranchHash
+//@   returns err
+//@   modifies branch.hash
+//@   requires wfRefs(r)
+//@   requires [hashlen] len(newHash) == 20
+//@   ensures [unknown-refused] {C10,C18} (forall i int :: 0 <= i && i < len(r.Heads) ==> r.Heads[i].Name != branchName) ==> err != nil && (forall i int :: 0 <= i && i < len(r.Heads) ==> string(r.Heads[i].hash) == string(old(r.Heads[i].hash)))
+//@   ensures [wf] {C10} wfRefs(r)
+//@   ensures [updated] {C10,C08,C02} err == nil ==> exists k int :: 0 <= k && k < len(r.Heads) && r.Heads[k].Name == branchName && string(r.Heads[k].hash) == string(newHash)
+//@   ensures [others] {C10,C08,C02} forall i int :: 0 <= i && i < len(r.Heads) && r.Heads[i].Name != branchName ==> string(r.Heads[i].hash) == string(old(r.Heads[i].hash))
+
+//@ func Refs.getBranchesByHash
+//@   returns bs
+//@   pure
+//@   requires wfRefs(r)
+//@   ensures [sound] {C11} forall j int :: 0 <= j && j < len(bs) ==> bs[j] != nil && string(bs[j].hash) == string(hash)
+//@   loop 0:
+//@     invariant forall j int :: 0 <= j && j < len(branches) ==> branches[j] != nil && string(branches[j].hash) == string(hash)
+
+//@ func Refs.ListBranches
+//@   pure
+//@   requires wfRefs(r)
